@@ -258,6 +258,30 @@ pub fn real_schedule(sess_factory: &mut dyn FnMut() -> Option<Box<dyn Driver>>, 
         if let Some(d) = out.board_dump().and_then(|d| parse_dump(d)) {
             if d.abort_node > 0 { rep.count(&format!("real_abort_at_node_{}00k", d.abort_node / 100_000)); }
         }
+        // a stop that arrives after the search has already answered (the usual GUI race): it must be
+        // ignored — in particular it must not produce a second answer
+        if rng.gen_bool(0.4) {
+            let _ = sess.send(&Gui::Stop);
+            rep.count("late_stop_after_the_answer");
+            std::thread::sleep(Duration::from_millis(2));
+        }
+        // a search with no time at all right after an interrupted one: its first iteration must still
+        // complete (the poll counter restarts with every go), so it answers a legal move
+        if rng.gen_bool(0.3) {
+            let zero = GoSpec { movetime: Some(0), ..Default::default() };
+            match search(sess.as_mut(), None, &zero) {
+                Ok(o) => {
+                    rep.eval();
+                    rep.count("zero_budget_go_after_an_interrupted_search");
+                    let legal: Vec<String> = p.legal_moves().iter().map(|m| m.uci()).collect();
+                    if o.best.as_ref().map_or(true, |b| !legal.contains(b)) {
+                        rep.violation(&format!("go-after-interrupted-search-answers-no-legal-move:{}", how), format!("{}: after an interrupted search `go movetime 0` answered {:?}", fen, o.best), replay.clone());
+                    }
+                }
+                Err(e) if e.starts_with("watchdog") => { rep.inconclusive("watchdog fired"); return; }
+                Err(e) => { rep.violation("engine-dead-after-interrupted-search", format!("{}: {}", fen, e), replay.clone()); return; }
+            }
+        }
         if !observe_interrupted(sess.as_mut(), p, &out, &fresh, rep, &replay, how, true) { return; }
     }
     // quit during a search: the thread must come down cleanly and the interrupted search must still
